@@ -1,4 +1,5 @@
 import Syzgy.Lemmas.Rest
+import Syzgy.Lemmas.RestSession
 /-!
 # C18 — every request gets a response; rejected requests change nothing
 -/
@@ -36,5 +37,30 @@ theorem ctor_validates (metric : Nat) (dim quant : Int) :
 
 /-- the unguarded insert loop *does* panic on a wrong-size vector (what the validation prevents) -/
 example : (insertStep 3 (.ok []) { id := 1, vecLen := some 2, hasText := false, md := [] }).isPanic = true := rfl
+
+/-! ## any session of requests (`Lemmas/RestSession.lean`) -/
+
+/-- **every request of every session is answered**: whatever the earlier requests of the session did
+    to the served state, no handler outcome is a panic (a dropped connection) or an error; there is
+    one response per request -/
+theorem every_request_of_every_session_answered (s : Server) (qs : List Req) :
+    ∃ s' rs, serve s qs = .ok (s', rs) ∧ rs.length = qs.length :=
+  serve_total qs s
+
+/-- **rejected requests leave no trace in any session**: erasing from a session the requests that were
+    answered with a status ≥ 300 gives a session with the same final state whose answers are exactly
+    the remaining answers — no later response depends on a rejected request -/
+theorem rejected_requests_can_be_erased (s s' : Server) (qs : List Req) (rs : List Resp)
+    (h : serve s qs = .ok (s', rs)) : serve s (accepted qs rs) = .ok (s', acceptedResps rs) :=
+  rejected_erasable qs s s' rs h
+
+/-- a session in which every request is rejected ends in the state it started from -/
+theorem session_of_rejections_is_noop (s s' : Server) (qs : List Req) (rs : List Resp)
+    (h : serve s qs = .ok (s', rs)) (hall : ∀ r ∈ rs, r.status ≥ 300) : s' = s :=
+  all_rejected_is_noop qs s s' rs h hall
+
+/-- non-vacuity: a session with one rejected request (unknown route, 404) between nothing else -/
+example : ∃ rs, serve [] [{ method := b!"GET", path := b!"/nope", body := .none }] = .ok ([], rs) ∧
+    (∀ r ∈ rs, r.status ≥ 300) := ⟨[{ status := 404 }], rfl, by simp⟩
 
 end Syzgy.C18
